@@ -48,6 +48,7 @@ var exposureFiles = []string{
 	"internal/dkg/actions_passive.go",
 	"internal/dkg/actions_signing.go",
 	"internal/dkg/execution.go",
+	"internal/dkg/broadcast.go",
 	"internal/chain/beacon/node.go",
 }
 
@@ -61,6 +62,20 @@ var xSecretTypes = map[string]bool{
 var xExternalStructs = map[string]map[string]string{
 	"github.com/drand/kyber/share.PriShare":         {"I": "", "V": "github.com/drand/kyber.Scalar"},
 	"github.com/drand/kyber/share/dkg.DistKeyShare": {"Commits": "", "Share": "github.com/drand/kyber/share.PriShare"},
+	// the configuration of a kyber DKG run: holds the node's long-term private key and, when
+	// resharing, its current share
+	"github.com/drand/kyber/share/dkg.Config": {"Longterm": "github.com/drand/kyber.Scalar", "Share": "github.com/drand/kyber/share/dkg.DistKeyShare",
+		"Suite": "", "OldNodes": "", "PublicCoeffs": "", "NewNodes": "", "Threshold": "", "OldThreshold": "", "Reader": "",
+		"UserReaderOnly": "", "FastSync": "", "Nonce": "", "Auth": "", "Log": ""},
+}
+
+// external functions that take a secret-holding container and whose results do not depend on the
+// secrets in it (read in kyber v1.3.2: VerifyPacketSignature uses the node lists and the nonce only)
+var xOpaqueSafe = map[string]bool{
+	"github.com/drand/kyber/share/dkg.VerifyPacketSignature": true,
+	// NewProtocol's results: the protocol object (its outputs are the encrypted deals / responses, kyber's
+	// business) and configuration-validation errors that quote no key material
+	"github.com/drand/kyber/share/dkg.NewProtocol": true,
 }
 
 // interface types through which secrets are reached, with the result type of their methods
@@ -1129,6 +1144,9 @@ func (env *xenv) evalCall(call *ast.CallExpr) []xtv {
 						if fd := p.funcs[f.Sel.Name]; fd != nil {
 							return env.w.summary(fd, p.funcFile[fd], nil, env.evalArgs(call.Args), env, call.Pos())
 						}
+					}
+					if xOpaqueSafe[ip+"."+f.Sel.Name] {
+						return []xtv{xConstTV}
 					}
 					return []xtv{env.taint(call.Args)}
 				}
